@@ -178,6 +178,11 @@ func ClientIDFromRequest(r *http.Request, p ClientProvider) (clientID string, au
 	clientID, err = ClientBasicAuth(r, p.Storage())
 	// if that succeeded, use it
 	if err == nil {
+		// a Basic header without a secret identifies a (public) client, it does not authenticate it,
+		// whatever the storage answers for an empty secret
+		if _, secret, _ := r.BasicAuth(); secret == "" {
+			return clientID, false, nil
+		}
 		return clientID, true, nil
 	}
 	// if the client did not send a Basic Auth Header, ignore the `ErrNoClientCredentials`
